@@ -8,9 +8,9 @@ structure (see their headers).  When the kernel model changes and Stable.lean is
 
 The script rewrites, in place, the body of `namespace FrameL` in ReachFrame.lean and the section
 "Composite operations" of ReachLift.lean; everything else in the two files (leaf structures,
-frame instance, leaf-level lemmas, exec/step/run) is hand-written and left alone.  The few
-composite proofs that differ from Stable.lean (they need `k != rootKey`, or the result of
-`treeGuard`) are kept in the table `hand` below.
+frame instance, leaf-level lemmas, exec/step/run) is hand-written and left alone.  The two
+composite proofs that differ from Stable.lean (they need the result of `treeGuard`) are kept in
+the table `hand` below.
 """
 import re
 LEM='/verif/lean/StepupModel/Lemmas/'
@@ -38,9 +38,9 @@ for c in chunks:
 nonskel="""modify_eq_modifyWhere cacheAt flagReadySinks flagDepEndpoints writeFile_preserves setFileState_preserves writeStepState_preserves setStepState_preserves markStepPending_preserves markStepPending'_preserves markConsumersPending_preserves markFileOutdated_preserves pendCreator_preserves handleUpdated_preserves handleDeleted_preserves updateFileHashes_preserves deleteDeps flagChecksWithProducts_preserves flagCheckAfterSources_preserves detachFlags_preserves dropDynamicInputs outdateBuilt_preserves outdateBuiltProducts_preserves rebuildOutdatedProducts_preserves completeSuccess_preserves markDir revertOutput_preserves revertStep_preserves revertOptional_preserves resetInterrupted_preserves rescanEnvVars_preserves checkConsistency_preserves hold_preserves release_preserves updateMetaSafe_preserves applyAfterUpdates afterLoop_preserves updateMetaAfter_preserves updateMetaReady updateMeta_preserves popNext_preserves reconcileTarget_preserves reconcileTargets_preserves afterLostProduct_preserves lostProduct_preserves flagIfStep_preserves writeInitialFile_preserves initFileRow_preserves initRow_preserves volatileSinkCheck_preserves insertDep_preserves insertNewEdges_preserves addSourceChecked_preserves setStepExtras afterRecycle_preserves setDynamic markDynamic amendEnv registerNglob_preserves registerNglobs_preserves beforeDelete_preserves lostBody_preserves""".split()
 leaves="cache fileWrite fileInit stepWrite stepInit setHash deleteHash bumpDefer hold release recycled addDep filterDeps markDyn queueDelete clearQueue".split()
 # composite operations whose proof carries over unchanged
-mech="""completeFailure_preserves markCompleted_preserves declareFile_preserves declareAll_preserves declareStaticFiles_preserves adoptByTree_preserves placeholder_preserves resolveWith_preserves resolveNode_preserves resolveSupply_preserves resolveAll_preserves supplyFiles_preserves declareProduct_preserves declareProducts_preserves recycleStep_preserves createStep_preserves defineStep_preserves amendProducts_preserves amendStep_preserves registerTrees_preserves declareStaticRequest_preserves baseBody_preserves deleteDetachedBase_preserves deleteDetached_preserves""".split()
+mech="""detachCreatedSteps_preserves detachProductsWhere_preserves dropDynamicSink_preserves resetForRerun_preserves detachProducts_preserves treeInner_preserves treeOuter_preserves completeFailure_preserves markCompleted_preserves declareFile_preserves declareAll_preserves declareStaticFiles_preserves adoptByTree_preserves placeholder_preserves resolveWith_preserves resolveNode_preserves resolveSupply_preserves resolveAll_preserves supplyFiles_preserves declareProduct_preserves declareProducts_preserves recycleStep_preserves createStep_preserves defineStep_preserves amendProducts_preserves amendStep_preserves registerTrees_preserves declareStaticRequest_preserves baseBody_preserves deleteDetachedBase_preserves deleteDetached_preserves""".split()
 # handled by hand in ReachLift.lean (leaf level) or in `hand` below
-byhand="""setDetachedRow setDetachedRec setCreator_preserves detachCore_preserves detach_preserves reattachCore_preserves reattach_preserves detachProducts_preserves recycleCore_preserves create_preserves handOver passBody_preserves deletePass_preserves unitOut_ok""".split()
+byhand="""setDetachedRow setDetachedRec setCreator_preserves detachCore_preserves detach_preserves reattachCore_preserves reattach_preserves recycleCore_preserves create_preserves handOver passBody_preserves deletePass_preserves unitOut_ok""".split()
 
 # ---- ReachFrame.lean
 out=[]
@@ -61,68 +61,8 @@ def tr(t):
     t=re.sub(r'(?<![\w.])P(?![\w])','(PQ Q)',t)
     for n in sorted(nonskel+leaves,key=len,reverse=True):
         t=re.sub(r'\bL\.'+re.escape(n)+r"(?![\w'])",'L.toFrame.'+n,t)
-    t=t.replace('L.create_preserves','L.create_pq').replace('L.reattach_preserves','L.reattach_pq').replace('L.deletePass_preserves','L.deletePass_pq')
     return t
 hand={}
-hand['detachCreatedSteps_preserves']='''/-- Detaching a list of rows none of which is the root. -/
-theorem foldlM_detach_pq (L : SkStable Q) (ps : List Node) (hps : ∀ p ∈ ps, p.key ≠ rootKey) (s s' : KState)
-    (hp : PQ Q s) (h : ps.foldlM (fun s p => s.detach p.key) s = .ok s') : PQ Q s' :=
-  foldlM_inv_mem (PQ Q) (fun s (p : Node) => s.detach p.key) ps
-    (fun p hpm s1 s2 hp1 h1 => L.detach_pq p.key (hps p hpm) s1 s2 hp1 h1) s s' hp h
-
-theorem detachCreatedSteps_preserves (L : SkStable Q) (k : Key) : Preserves (PQ Q) (fun s => s.detachCreatedSteps k) := by
-  intro s s' hp h
-  replace h : s.detachCreatedSteps k = .ok s' := h
-  unfold KState.detachCreatedSteps at h
-  refine L.foldlM_detach_pq _ ?_ s s' hp h
-  intro p hpm
-  exact product_ne_root (L.ok _ hp.2) (List.mem_filter.1 hpm).1
-'''
-hand['detachProductsWhere_preserves']='''theorem detachProductsWhere_preserves (L : SkStable Q) (k : Key) (p : Node → Bool) :
-    Preserves (PQ Q) (fun s => s.detachProductsWhere k p) := by
-  intro s s' hp h
-  replace h : s.detachProductsWhere k p = .ok s' := h
-  unfold KState.detachProductsWhere at h
-  refine L.foldlM_detach_pq _ ?_ s s' hp h
-  intro q hqm
-  exact product_ne_root (L.ok _ hp.2) (List.mem_filter.1 hqm).1
-'''
-hand['dropDynamicSink_preserves']='''theorem dropDynamicSink_preserves (L : SkStable Q) (step k : Key) (hk : k ≠ rootKey) :
-    Preserves (PQ Q) (fun s => s.dropDynamicSink step k) := by
-  intro s s' hp h
-  replace h : s.dropDynamicSink step k = .ok s' := h
-  unfold KState.dropDynamicSink at h
-  exact L.detach_pq k hk _ s' (L.toFrame.deleteDeps s _ hp) h
-
-/-- No dependency ends in the root. -/
-theorem dynamicSink_ne_root {s : KState} (hd : DepsKindOK s) {step k : Key} (hk : k ∈ s.dynamicSinks step) :
-    k ≠ rootKey := by
-  unfold KState.dynamicSinks at hk
-  obtain ⟨d, hdm, rfl⟩ := List.mem_map.1 hk
-  have := hd d (List.mem_filter.1 hdm).1
-  intro hr
-  rw [hr] at this
-  unfold depKindOk at this
-  cases hsrc : d.src.kind <;> simp [hsrc, rootKey] at this
-'''
-hand['resetForRerun_preserves']='''/-- `Step.reset_for_rerun` -/
-theorem resetForRerun_preserves (L : SkStable Q) (k : Key) : Preserves (PQ Q) (fun s => s.resetForRerun k) := by
-  intro s s' hp h
-  replace h : s.resetForRerun k = .ok s' := h
-  unfold KState.resetForRerun at h
-  dsimp only at h
-  have hp0 : PQ Q (s.dropDynamicInputs k) := L.toFrame.dropDynamicInputs s k hp
-  refine bind_ok h (fun s2 h2 => ?_) ?_
-  · exact foldlM_inv_mem (PQ Q) (fun st t => st.dropDynamicSink k t) _
-      (fun t ht s1 s2 hp1 h1 => L.dropDynamicSink_preserves k t (dynamicSink_ne_root hp0.1 ht) s1 s2 hp1 h1) _ s2 hp0 h2
-  · intro s2 s2' hp2 hh2
-    refine bind_ok hh2 (fun s3 h3 => L.detachCreatedSteps_preserves k s2 s3 hp2 h3) ?_
-    intro s3 s3' hp3 hh3
-    refine bind_ok hh3 (fun s4 h4 => L.detachProductsWhere_preserves k _ s3 s4 hp3 h4) ?_
-    intro s4 s4' hp4 hh4
-    refine bind_ok hh4 (fun s5 h5 => L.detachProductsWhere_preserves k _ s4 s5 hp4 h5) ?_
-    exact L.toFrame.outdateBuilt_preserves k
-'''
 hand['registerTreeBody_preserves']='''theorem registerTreeBody_preserves (L : SkStable Q) (cfg : KConfig) (creator : Key) (path : String) (g : Option (List Key)) (s : KState)
     (r : KState × List String) (hp : PQ Q s) (hg : s.treeGuard creator path = .ok g)
     (h : s.registerTreeBody cfg creator path g = .ok r) : PQ Q r.1 := by
@@ -146,28 +86,6 @@ hand['registerStaticTree_preserves']='''theorem registerStaticTree_preserves (L 
   intro g r2 hg hh2
   exact L.registerTreeBody_preserves cfg creator _ g s r2 hp hg hh2
 '''
-hand['treeInner_preserves']='''theorem treeInner_preserves (L : SkStable Q) (f : Node) (hf : f.key ≠ rootKey) (st : KState) (r : ForInStep KState)
-    (hp : PQ Q st) (h : treeInner f st = .ok r) : PQ Q r.value := by
-  unfold treeInner at h
-  split at h
-  · refine bind_ok_gen h (PQ Q) (fun a ha => L.detach_pq f.key hf st a hp ha) (fun r => PQ Q r.value) ?_
-    intro a r' ha hh
-    simp only [pure, Except.pure, Except.ok.injEq] at hh; subst hh; exact ha
-  · simp only [pure, Except.pure, Except.ok.injEq] at h; subst h; exact hp
-'''
-hand['treeOuter_preserves']='''theorem treeOuter_preserves (L : SkStable Q) (t : Node) (st : KState) (r : ForInStep KState) (hp : PQ Q st)
-    (h : treeOuter t st = .ok r) : PQ Q r.value := by
-  unfold treeOuter at h
-  simp only at h
-  refine bind_ok_gen h (PQ Q) (fun a ha => ?_) (fun r => PQ Q r.value) ?_
-  · refine forIn_except_inv _ treeInner (PQ Q) st a hp ?_ ha
-    intro f hfm b r' hb hf
-    refine L.treeInner_preserves f ?_ b r' hb hf
-    exact product_ne_root (L.ok _ hp.2) (List.mem_mergeSort.1 hfm)
-  · intro a r' ha hh
-    simp only [pure, Except.pure, Except.ok.injEq] at hh; subst hh; exact ha
-'''
-
 out=[]
 for n in order:
     if n in hand: out.append(hand[n])
